@@ -17,6 +17,7 @@ import glob
 import hashlib
 import importlib
 import re
+import shutil
 import signal
 import traceback
 import multiprocessing as mp
@@ -212,6 +213,26 @@ def load_known(pid):
     return [e for e in data.get("findings", []) if e.get("property") == pid]
 
 
+def _sweep_work():
+    """Remove scratch directories under .work/ whose owning process (pid in the name) no longer exists."""
+    import re
+    base = os.path.join(VERIF, ".work")
+    try:
+        names = os.listdir(base)
+    except OSError:
+        return
+    for nm in names:
+        m = re.search(r"(\d+)$", nm)
+        if not m:
+            continue
+        try:
+            os.kill(int(m.group(1)), 0)
+        except ProcessLookupError:
+            shutil.rmtree(os.path.join(base, nm), ignore_errors=True)
+        except OSError:
+            pass
+
+
 def default_kf_match(entry, case, res):
     sig = entry.get("signature", {})
     pat = sig.get("bucket_regex")
@@ -241,6 +262,7 @@ def run_check(pid, tier, seed, replay=None):
     # fresh directory for the violations of this run
     import shutil
     shutil.rmtree(os.path.join(VERIF, "found", pid), ignore_errors=True)
+    _sweep_work()
 
     # 1. known findings: which are live?
     flags = set()
